@@ -410,7 +410,8 @@ def _replay_convert(ctx, rec, k, report, tuples):
                 if not rows_close(rows, conv["rows"]):
                     report("to_csv:%s:dup=%s" % (where, conv["dup"]), dict(detail, observed=lines[:40]))
     except Exception as exc:   # noqa
-        report("%s:%s:raised:%s" % (op, where, exc_name(exc)), dict(detail, exception=repr(exc)))
+        report("%s:%s:raised:%s" % ("hist_to_graph" if op == "to_graph" else op, where, exc_name(exc)),
+               dict(detail, exception=repr(exc)))
         return
     if hist.bins != bins0 or hist.edges != edges0:
         report("%s:histogram-modified:%s" % (op, where), detail)
